@@ -83,7 +83,29 @@ Section Manager.
         end
     end.
 
+  (* m.tableEngines.Store *)
+  Fixpoint insert (reg : registry) (id : string) (e : estate) : registry :=
+    match reg with
+    | [] => [(id, e)]
+    | (k, e0) :: t => if String.eqb k id then (k, e) :: t else (k, e0) :: insert t id e
+    end.
+
+  (* m.CreateTable(...): `ok` and the fresh engine `e` are what the engine's CreateTable produced;
+     which registry writes happen, and whether before or after the success check, is read from
+     the generated list create_stores *)
+  Definition mcreate (stores : list (bool * bool)) (reg : registry) (id : string) (ok : bool) (e : estate) : registry :=
+    fold_left (fun r st => let '(after_ok, key_is_id) := st in
+                           if (negb after_ok || ok) && key_is_id then insert r id e else r) stores reg.
+
+  Definition mreset (clears : bool) (reg : registry) : registry := if clears then [] else reg.
+
   (* ---------- the specification: what the property demands, independent of the table ---------- *)
+  (* a table exists from its successful creation until it is closed, released or the manager is
+     reset; a refused creation leaves no trace *)
+  Definition spec_create (reg : registry) (id : string) (ok : bool) (e : estate) : registry :=
+    if ok then insert reg id e else reg.
+  Definition spec_reset (reg : registry) : registry := [].
+
   Definition closes (name : string) : bool := String.eqb name "CloseTable" || String.eqb name "ReleaseTable".
 
   Definition spec_step (reg : registry) (name id : string) (args : list arg) : registry * mres :=
